@@ -56,6 +56,7 @@ package cty
 //@   ensures (and (wf_deep result) (is_number_ty (vty result)) (not (is_null result)) (=> (not (is_marked val)) (not (is_marked result))))
 //@   ensures (=> (is_known result) (is_index_num result))
 //@   ensures (=> (not (is_marked val)) (= result (len_val val)))
+//@   ensures (=> (and (not (is_marked val)) (or (is_tuple_ty (vty val)) (and (kn val) (or (is_list_ty (vty val)) (is_map_ty (vty val)))))) (and (kn result) (= (bf.acc64 (bf_of result)) 0) (= (bf.int64 (bf_of result)) (len_int val))))
 //
 //@ func (cty.Value).assertUnmarked
 //@   tags C02
